@@ -30,7 +30,7 @@ var validShapes = []string{"none", "order", "odocname", "secret", "cudnew", "cud
 var invalidShapes = []string{"bad-order", "bad-field", "bad-secret", "unknown", "nullname", "corrupted"}
 
 // probe shapes (corpus only): "corrupted-big" = sys.Corrupted with 70000 original bytes (a row too large
-// for the storage cache), "unknown-long" = an unknown command name of 70000 bytes (build error text and original name above 65535 bytes)
+// for the storage cache), "unknown-long" = an unknown command name of 70000 bytes (build error text and original name above 65535 bytes), "unknown-dotted" = an unknown command name with a dot inside its entity part (its text does not parse back as a QName)
 func (s eventSpec) corrupted() bool { return s.Shape == "corrupted" || s.Shape == "corrupted-big" }
 
 func strOf(seed uint64, salt int) string {
@@ -146,7 +146,7 @@ func (r *rig) build(s eventSpec, bases map[uint64]*baseDoc) (istructs.IRawEvent,
 		"none": cmdNone, "order": cmdOrder, "odocname": qnOrder, "secret": cmdSecret, "cudnew": istructs.QNameCommandCUD,
 		"cudupd": istructs.QNameCommandCUD, "cuddeact": istructs.QNameCommandCUD, "sync-order": cmdOrder, "sync-cud": istructs.QNameCommandCUD,
 		"bad-order": cmdOrder, "bad-field": cmdNone, "bad-secret": cmdSecret, "unknown": qnUnknown, "nullname": appdef.NullQName,
-		"corrupted": istructs.QNameForCorruptedData, "corrupted-big": istructs.QNameForCorruptedData, "unknown-long": appdef.NewQName("test", strings.Repeat("x", 70000)),
+		"corrupted": istructs.QNameForCorruptedData, "corrupted-big": istructs.QNameForCorruptedData, "unknown-long": appdef.NewQName("test", strings.Repeat("x", 70000)), "unknown-dotted": appdef.NewQName("test", "a.b"),
 	}[s.Shape]
 	evBytes := eventBytes(seed)
 	if s.Shape == "corrupted-big" {
@@ -168,7 +168,7 @@ func (r *rig) build(s eventSpec, bases map[uint64]*baseDoc) (istructs.IRawEvent,
 		bld = r.app.Events().GetNewRawEventBuilder(istructs.NewRawEventBuilderParams{GenericRawEventBuilderParams: gp})
 	}
 	switch s.Shape {
-	case "none", "unknown", "nullname", "corrupted", "corrupted-big", "unknown-long":
+	case "none", "unknown", "nullname", "corrupted", "corrupted-big", "unknown-long", "unknown-dotted":
 	case "order", "odocname":
 		fillOrder(bld.ArgumentObjectBuilder(), seed, 1, false)
 		if seed%5 == 2 { // an order that also creates a document
@@ -456,6 +456,9 @@ type eventDump struct {
 	// why Digest != StoredDigest: "", "F4" (argument objects / CUD rows of an invalid event), "F6"
 	// (error text of 65535 bytes or more), "F4+F6"
 	Cause string
+	// the original name of an invalid event does not parse back as a QName (Cause "F7"): whether its
+	// stored row decodes is found out by asking the real decoder (runLog)
+	NameUnparsable bool
 }
 
 var flagsRe = regexp.MustCompile(` act=(true|false) deact=(true|false)`)
@@ -505,12 +508,15 @@ func (r *rig) dump(ev istructs.IDbEvent) (res eventDump, err error) {
 	errStr, errName := "", ""
 	var errBytes []byte
 	errT, errStoredT := "", ""
+	cutName := ""
+	undecodable := false
 	if !valid {
 		errStr, errName = e.ErrStr(), e.QNameFromParams().String()
 		if !hasUnl { // original bytes are deliberately not logged when the command has an unlogged argument
 			errBytes = e.OriginalEventBytes()
 		}
-		cut, cutName := errStr, errName
+		cut := errStr
+		cutName = errName
 		if len(cut) >= shortStringMax {
 			cut = cut[:shortStringMax]
 		}
@@ -562,6 +568,11 @@ func (r *rig) dump(ev istructs.IDbEvent) (res eventDump, err error) {
 			cs = append(cs, "F6")
 		}
 		cause = strings.Join(cs, "+")
+		if strings.Count(cutName, ".") != 1 {
+			// loadEventBuildError parses the original name with ParseQName (exactly one dot)
+			undecodable = true
+			cause = "F7"
+		}
 	}
 	syncPart := "0 0"
 	if ev.Synced() {
@@ -574,6 +585,8 @@ func (r *rig) dump(ev istructs.IDbEvent) (res eventDump, err error) {
 	if d.err != nil {
 		return eventDump{}, d.err
 	}
-	return eventDump{Text: text, StoredText: stored, Coq: coq, Digest: digest(text), StoredDigest: digest(stored),
-		DigestNoFlags: digest(flagsRe.ReplaceAllString(text, "")), Cause: cause}, nil
+	res = eventDump{Text: text, StoredText: stored, Coq: coq, Digest: digest(text), StoredDigest: digest(stored),
+		DigestNoFlags: digest(flagsRe.ReplaceAllString(text, "")), Cause: cause}
+	res.NameUnparsable = undecodable
+	return res, nil
 }
